@@ -9,6 +9,12 @@ Translated, each from its own source text (stdlib `ast` only), statement by stat
      `HelixAwkwardRecord.momentum / .position / .charge / .radius` -> `awkMomentum`, `awkPosition`, `awkCharge`, `awkRadius`
      (`HelixAwkwardArray`'s property bodies are *checked* to be identical to the Record's, docstrings aside)
   d. the "given momentum, position and charge" branch of `helix_obj` -> `objFromPhysics`, and of `helix_awk` -> `awkFromPhysics`
+  e. the closeness test, per track: `_obj_isclose` -> `objIsclosePyFull` / `objIsclosePy`, `_arr_isclose` -> `arrIsclosePyFull` /
+     `arrIsclosePy` (the other helix moved with `changePivotWiredObj / changePivotWiredArr` of Gen/HelixPy.lean, the tests in source
+     order, `np.abs(vector)` = `.mag`, the error matrices compared entry by entry when both helices carry one), and the three public
+     `isclose` methods: helper called, arguments passed, defaults -> `objIscloseDefaults / recIscloseDefaults / arrIscloseDefaults`,
+     `objIscloseHelper / recIscloseHelper / arrIscloseHelper`.  The wiring of `change_pivot` (new pivot, error matrix present iff
+     the old one is) is checked on the callers.  NaN / `equal_nan` have no counterpart over `Ops`.
 
 What is abstracted (and only this): numba/numpy/awkward broadcasting is elementwise, so a kernel applied to arrays is the
 kernel applied to each track; `vector` objects are expanded into cartesian components (`.to_2D()`, `-`, `.rho`, `.phi` with the
@@ -738,12 +744,497 @@ def translate_helix_awk(tree, calls):
     return text, tr.nstmts, arms
 
 
+# ------------------------------------------------------------------------------------------------ e. closeness test
+class HelixV:
+    """a helix operand of the closeness test: five parameter texts, pivot (V3), error (Lean text of an `Option` matrix, or
+    the name of a matrix inside a branch where it is known to be present)"""
+    def __init__(self, fields, pivot, error):
+        self.fields, self.pivot, self.error = dict(fields), pivot, error
+
+
+class ErrV:
+    """the error matrix a helix carries, if any; `via` = how the source got hold of it: 'attr' (`x.error` - raises for a record
+    without that field) or 'helper' (`_error_or_none(x)`)"""
+    def __init__(self, owner: HelixV, via: str): self.owner, self.via = owner, via
+
+
+class FieldsV:
+    def __init__(self, owner: HelixV): self.owner = owner
+
+
+class SomeT:
+    """the test "this helix carries an error matrix" (`x.error is not None` / `'error' in x.fields`)"""
+    def __init__(self, owner: HelixV, via: str): self.owner, self.via = owner, via
+
+
+class BothSome:
+    """both helices carry an error matrix; `via` = how each presence was decided ('attr' | 'helper' | 'fields')"""
+    def __init__(self, owners, via): self.owners, self.via = owners, via
+
+
+class StrV:
+    def __init__(self, v): self.v = v
+
+
+class MatB:
+    """`ak.isclose(errA, errB, **kwargs)`, reduced by `ak.all(.., axis=-1)` `level` times"""
+    def __init__(self, a, b, level=0): self.a, self.b, self.level = a, b, level
+
+
+class KindTest:
+    """`isinstance(self, ak.Record)`: single record or array - both arms must define the same values"""
+
+
+def parb(t: str) -> str:
+    return f"({t})" if (" && " in t or t.startswith("if ") or t.startswith("match ")) else t
+
+
+class IscloseTr(Tr):
+    """`_obj_isclose` / `_arr_isclose`, per track"""
+
+    def __init__(self, mover: str, tree=None):
+        self.tree = tree
+        self.present = {}           # id(helix) -> name of its error matrix, inside the branch where both are known to be present
+        self.presence_via = None
+        self_h = HelixV({f: f"h.{f}" for f in PARAM_FIELDS}, V3.named("p"), "E")
+        other_h = HelixV({f: f"h'.{f}" for f in PARAM_FIELDS}, V3.named("p'"), "E'")
+        super().__init__({"self": self_h, "other": other_h, "rtol": S("rtol"), "atol": S("atol"), "equal_nan": Marker("equal_nan")},
+                         {}, "bool")
+        self.mover = mover
+        self.moved = False
+        self.tested = []            # (a, b) of every isclose, in order
+        self.error_rule = None
+
+    def need_kwargs(self, e: ast.Call):
+        ok = len(e.keywords) == 1 and e.keywords[0].arg is None and isinstance(e.keywords[0].value, ast.Name) \
+            and isinstance(self.env.get(e.keywords[0].value.id), Marker) and self.env[e.keywords[0].value.id].name == "isclose_kwargs"
+        if not ok:
+            raise Unsupported(f"call {ast.unparse(e)}: tolerances are not passed on as **kwargs (numpy's own defaults would apply)")
+
+    def helix_name(self, hv):
+        names = [k for k, v in self.env.items() if v is hv]
+        if len(names) != 1:
+            raise Unsupported("a helix operand is bound to several names")
+        return names[0]
+
+    def expr(self, e):
+        src = ast.unparse(e)
+        if isinstance(e, ast.Constant) and isinstance(e.value, str):
+            return StrV(e.value)
+        if isinstance(e, ast.Attribute) and not (isinstance(e.value, ast.Name) and e.value.id in ("np", "math", "vector", "ak", "nb")):
+            base = self.expr(e.value)
+            if isinstance(base, HelixV):
+                if e.attr in PARAM_FIELDS: return S(base.fields[e.attr])
+                if e.attr == "pivot": return base.pivot
+                if e.attr == "error": return ErrV(base, "attr")
+                if e.attr == "fields": return FieldsV(base)
+                raise Unsupported(f"attribute {src}")
+        if isinstance(e, ast.Subscript):
+            base, idx = self.expr(e.value), self.expr(e.slice)
+            if isinstance(base, HelixV) and isinstance(idx, StrV) and idx.v in PARAM_FIELDS:
+                return S(base.fields[idx.v])
+            raise Unsupported(f"subscript {src}")
+        if isinstance(e, ast.Dict):
+            keys = [k.value if isinstance(k, ast.Constant) else None for k in e.keys]
+            if keys == ["rtol", "atol", "equal_nan"] and [ast.unparse(v) for v in e.values] == keys \
+                    and all(k in self.env for k in keys) and self.env["rtol"].t == "rtol" and self.env["atol"].t == "atol":
+                return Marker("isclose_kwargs")
+            raise Unsupported(f"dict {src}")
+        if isinstance(e, ast.Compare) and len(e.ops) == 1:
+            op, l, r = e.ops[0], e.left, e.comparators[0]
+            if isinstance(op, ast.IsNot) and isinstance(r, ast.Constant) and r.value is None:
+                v = self.expr(l)
+                if isinstance(v, ErrV):
+                    return SomeT(v.owner, v.via)
+                raise Unsupported(f"test {src}")
+            if isinstance(op, ast.In):
+                a, b = self.expr(l), self.expr(r)
+                if isinstance(a, StrV) and a.v == "error" and isinstance(b, FieldsV):
+                    return SomeT(b.owner, "fields")
+                raise Unsupported(f"test {src}")
+        if isinstance(e, ast.BoolOp) and isinstance(e.op, ast.And):
+            vals = [self.expr(v) for v in e.values]
+            if all(isinstance(v, B) for v in vals):
+                return B(" && ".join(parb(v.t) for v in vals))
+            if len(vals) == 2 and all(isinstance(v, SomeT) for v in vals) and vals[0].owner is not vals[1].owner:
+                return BothSome([v.owner for v in vals], [v.via for v in vals])
+            raise Unsupported(f"boolean expression {src}")
+        if isinstance(e, ast.BinOp) and isinstance(e.op, ast.BitAnd):
+            a, b = self.expr(e.left), self.expr(e.right)
+            if isinstance(a, B) and isinstance(b, B):
+                return B(f"{parb(a.t)} && {parb(b.t)}")
+            raise Unsupported(f"expression {src}")
+        return super().expr(e)
+
+    def call(self, e: ast.Call):
+        f, src = ast.unparse(e.func), ast.unparse(e)
+        if f in ("np.isclose", "ak.isclose"):
+            self.need_kwargs(e)
+            if len(e.args) != 2:
+                raise Unsupported(f"call {src}")
+            a, b = self.expr(e.args[0]), self.expr(e.args[1])
+            if isinstance(a, S) and isinstance(b, S):
+                self.tested.append((a.t, b.t))
+                return B(f"iscloseScalar R rtol atol {par(a.t)} {par(b.t)}")
+            if f == "ak.isclose" and isinstance(a, ErrV) and isinstance(b, ErrV) and id(a.owner) in self.present and id(b.owner) in self.present:
+                return MatB(self.present[id(a.owner)], self.present[id(b.owner)])
+            raise Unsupported(f"call {src}")
+        if f == "np.allclose":
+            self.need_kwargs(e)
+            a, b = (self.expr(x) for x in e.args) if len(e.args) == 2 else (None, None)
+            if isinstance(a, ErrV) and isinstance(b, ErrV) and id(a.owner) in self.present and id(b.owner) in self.present:
+                return B(f"allclose25 R rtol atol {self.present[id(a.owner)]} {self.present[id(b.owner)]}")
+            raise Unsupported(f"call {src}")
+        if f == "ak.all":
+            if len(e.args) != 1 or [k.arg for k in e.keywords] != ["axis"] or ast.unparse(e.keywords[0].value) != "-1":
+                raise Unsupported(f"call {src}")
+            v = self.expr(e.args[0])
+            if isinstance(v, MatB) and v.level == 0:
+                return MatB(v.a, v.b, 1)                                   # the 5 columns of each row
+            if isinstance(v, MatB) and v.level == 1:
+                return B(f"allclose25 R rtol atol {v.a} {v.b}")            # ... and the 5 rows
+            raise Unsupported(f"call {src}")
+        if f in ("np.abs", "abs", "np.absolute") and len(e.args) == 1 and not e.keywords:
+            v = self.expr(e.args[0])
+            if isinstance(v, V3):
+                return S(f"vecMag3 R {par(v.x)} {par(v.y)} {par(v.z)}")
+            if isinstance(v, S):
+                return S(f"R.abs {par(v.t)}")
+            raise Unsupported(f"call {src}")
+        if f == "ak.ones_like":
+            if len(e.args) == 1 and isinstance(self.expr(e.args[0]), S) and [(k.arg, ast.unparse(k.value)) for k in e.keywords] == [("dtype", "bool")]:
+                return B("true")
+            raise Unsupported(f"call {src}")
+        if f == "bool" and len(e.args) == 1 and not e.keywords:
+            v = self.expr(e.args[0])
+            if isinstance(v, B):
+                return v
+            raise Unsupported(f"call {src}")
+        if f == "ak.Record":
+            z = ast.Call(func=ast.Attribute(value=ast.Name(id="ak", ctx=ast.Load()), attr="zip", ctx=ast.Load()), args=e.args, keywords=e.keywords)
+            return super().call(ast.fix_missing_locations(ast.copy_location(z, e)))          # same field-wise meaning as ak.zip
+        if f == "isinstance" and src == "isinstance(self, ak.Record)":
+            return KindTest()
+        if f == "_error_or_none":
+            check_error_or_none(self.tree)
+            v = self.expr(e.args[0]) if len(e.args) == 1 and not e.keywords else None
+            if isinstance(v, HelixV):
+                return ErrV(v, "helper")                # the matrix the helix carries, if any (record: the field, if it exists)
+            raise Unsupported(f"call {src}")
+        return super().call(e)
+
+    def bind(self, blk, name, val):
+        if isinstance(val, (HelixV, ErrV)):
+            self.env[name] = val
+        else:
+            super().bind(blk, name, val)
+
+    def special(self, blk: Blk, st) -> bool:
+        # other = other.change_pivot(self.pivot)
+        if isinstance(st, ast.Assign) and isinstance(st.value, ast.Call) and isinstance(st.value.func, ast.Attribute) \
+                and st.value.func.attr == "change_pivot":
+            tgt = st.targets[0] if len(st.targets) == 1 else None
+            who = self.expr(st.value.func.value)
+            args = [self.expr(a) for a in st.value.args]
+            selfh = self.env["self"]
+            if not (isinstance(tgt, ast.Name) and isinstance(who, HelixV) and who is self.env.get(tgt.id) and who is not selfh
+                    and len(args) == 1 and not st.value.keywords and isinstance(args[0], V3) and args[0].comps() == selfh.pivot.comps()
+                    and not self.moved):
+                raise Unsupported(f"statement `{ast.unparse(st)}`: expected `other = other.change_pivot(self.pivot)`")
+            n = tgt.id
+            old, new = who.pivot, args[0]
+            blk.items.append(("let", n, f"{self.mover} R h' {old.x.split('.')[0]} {new.x.split('.')[0]}"))
+            blk.items.append(("let", f"{n}_error", f"Option.map (propagate R {n}.2.2.2) {who.error}"))
+            # wiring of the new helix (checked on the callers by translate.helix.check_callers and check_move_wiring)
+            self.env[n] = HelixV({"dr": f"{n}.1", "phi0": f"{n}.2.1", "dz": f"{n}.2.2.1", "kappa": who.fields["kappa"], "tanl": who.fields["tanl"]},
+                                 new, f"{n}_error")
+            self.moved = True
+            return True
+        # for f in [...]: <body>          (unrolled)
+        if isinstance(st, ast.For):
+            if st.orelse or not isinstance(st.target, ast.Name) or not isinstance(st.iter, (ast.List, ast.Tuple)) \
+                    or not all(isinstance(x, ast.Constant) and isinstance(x.value, str) for x in st.iter.elts):
+                raise Unsupported(f"loop `{ast.unparse(st)[:70]}`")
+            for x in st.iter.elts:
+                self.env[st.target.id] = StrV(x.value)
+                blk.items += self.block(st.body, False).items
+            del self.env[st.target.id]
+            return True
+        if isinstance(st, ast.If):
+            c = self.expr(st.test)
+            if isinstance(c, KindTest):
+                snap = dict(self.env)
+                b1 = self.block(st.body, False); e1 = self.env
+                self.env = dict(snap)
+                b2 = self.block(st.orelse, False); e2 = self.env
+                if b1.items or b2.items or set(e1) != set(e2):
+                    raise Unsupported("the record and the array arm of `isinstance(self, ak.Record)` do not bind the same names")
+                for k in e1:
+                    if k in snap and e1[k] is snap[k] and e2[k] is snap[k]:
+                        continue
+                    if not (isinstance(e1[k], V3) and isinstance(e2[k], V3) and e1[k].comps() == e2[k].comps()):
+                        raise Unsupported(f"`{k}` differs between the record and the array arm of `isinstance(self, ak.Record)`")
+                self.env = e1
+                return True
+            if isinstance(c, BothSome):
+                if st.orelse or self.error_rule is not None:
+                    raise Unsupported(f"statement `{ast.unparse(st)[:70]}`")
+                snap = dict(self.env)
+                names = [self.helix_name(hv) for hv in c.owners]
+                self.present = {id(hv): f"e_{n}" for hv, n in zip(c.owners, names)}
+                lets = self.block(st.body, False).lets()
+                self.present = {}
+                self.env = snap
+                if [n for n, _ in lets] != ["condition"] or not isinstance(snap.get("condition"), B):
+                    raise Unsupported("the error-matrix branch does more than refine `condition`")
+                a, b = (hv.error for hv in c.owners)
+                blk.items.append(("let", "condition", f"ifBothErrors {a} {b} (fun {' '.join('e_' + n for n in names)} => {lets[0][1]}) condition"))
+                self.error_rule = names
+                self.presence_via = list(c.via)
+                return True
+            return False
+        return False
+
+
+def translate_isclose_helper(tree, name, lean, mover):
+    fn = top_function(tree, name)
+    a = fn.args
+    if [x.arg for x in a.args] != ["self", "other"] or [x.arg for x in a.kwonlyargs] != ["rtol", "atol", "equal_nan"] \
+            or a.vararg or a.kwarg or a.defaults or any(d is not None for d in a.kw_defaults) or fn.decorator_list:
+        raise Unsupported(f"{name}: signature is not (self, other, *, rtol, atol, equal_nan)")
+    tr = IscloseTr(mover, tree)
+    blk = tr.block(fn.body, True)
+    if not tr.moved:
+        raise Unsupported(f"{name}: the other helix is not moved to self's pivot")
+    if tr.error_rule != ["self", "other"]:
+        raise Unsupported(f"{name}: the error matrices are not compared as (self.error, other.error) when both are present")
+    sig = " (rtol atol : α) (h : Params α) (p : Vec3 α) (E : Option (Nat → Nat → α)) (h' : Params α) (p' : Vec3 α) (E' : Option (Nat → Nat → α))"
+    text = lean_def(f"`{name}(self, other, rtol=, atol=, equal_nan=)` for one track; `E`, `E'` are the error matrices (`none` = no matrix)",
+                    lean + "Full", sig, "Bool", blk)
+    text += f"\n/-- `{name}` for helices without error matrices -/\n" \
+            f"def {lean} (R : Ops α) (rtol atol : α) (h : Params α) (p : Vec3 α) (h' : Params α) (p' : Vec3 α) : Bool :=\n" \
+            f"  {lean}Full R rtol atol h p none h' p' none\n"
+    return text, {"lean": lean, "statements": tr.nstmts, "isclose_tests": len(tr.tested), "compared": tr.tested,
+                  "error_presence_via": tr.presence_via}
+
+
+ERROR_OR_NONE_REF = """
+def _error_or_none(helix):
+    if isinstance(helix, ak.Record):
+        return helix["error"] if "error" in helix.fields else None
+    return helix.error
+"""
+
+
+def check_error_or_none(tree):
+    """`_error_or_none(x)`: a record's `error` field iff the field exists, else None; an object's `.error` - exactly this shape"""
+    if tree is None:
+        raise Unsupported("_error_or_none: source not available")
+    fn = top_function(tree, "_error_or_none")
+    ref = ast.parse(ERROR_OR_NONE_REF).body[0]
+    if fn.decorator_list or ast.dump(fn.args) != ast.dump(ref.args) \
+            or [ast.dump(x) for x in strip_doc(fn.body)] != [ast.dump(x) for x in ref.body]:
+        raise Unsupported("_error_or_none is not `record: helix['error'] if 'error' in helix.fields else None; otherwise helix.error`")
+
+
+def decimal_of(e, what):
+    import decimal
+    if not (isinstance(e, ast.Constant) and isinstance(e.value, (int, float)) and not isinstance(e.value, bool)):
+        raise Unsupported(f"{what}: default is not a numeric literal")
+    d = decimal.Decimal(repr(e.value)).normalize()
+    sign, digits, exp = d.as_tuple()
+    if sign or not isinstance(exp, int):
+        raise Unsupported(f"{what}: default {e.value!r}")
+    return int("".join(map(str, digits))), exp
+
+
+def warn_only(tree, name):
+    fn = top_function(tree, name)
+    for x in ast.walk(fn):
+        if isinstance(x, (ast.Raise, ast.Global, ast.Nonlocal, ast.Delete)) or (isinstance(x, ast.Return) and x.value is not None):
+            raise Unsupported(f"{name} does more than warn")
+
+
+def check_isclose_method(tree, cls_name):
+    """which helper, which arguments, which defaults"""
+    cls = the_class(tree, cls_name)
+    fs = [n for n in cls.body if isinstance(n, ast.FunctionDef) and n.name == "isclose"]
+    if len(fs) != 1 or fs[0].decorator_list:
+        raise Unsupported(f"{cls_name}.isclose")
+    fn = fs[0]
+    a = fn.args
+    if len(a.args) != 2 or a.args[0].arg != "self" or a.vararg or a.kwarg or a.defaults \
+            or [x.arg for x in a.kwonlyargs] != ["rtol", "atol", "equal_nan"] or any(d is None for d in a.kw_defaults):
+        raise Unsupported(f"{cls_name}.isclose: signature is not (self, other, *, rtol=, atol=, equal_nan=)")
+    oth = a.args[1].arg
+    rt, at = decimal_of(a.kw_defaults[0], f"{cls_name}.isclose rtol"), decimal_of(a.kw_defaults[1], f"{cls_name}.isclose atol")
+    en = a.kw_defaults[2]
+    if not (isinstance(en, ast.Constant) and isinstance(en.value, bool)):
+        raise Unsupported(f"{cls_name}.isclose: equal_nan default")
+
+    def helper_of(st):
+        c = st.value if isinstance(st, ast.Return) else None
+        if not (isinstance(c, ast.Call) and isinstance(c.func, ast.Name) and c.func.id in ("_obj_isclose", "_arr_isclose")
+                and [ast.unparse(x) for x in c.args] == ["self", oth]
+                and sorted((k.arg, ast.unparse(k.value)) for k in c.keywords) == [("atol", "atol"), ("equal_nan", "equal_nan"), ("rtol", "rtol")]):
+            raise Unsupported(f"{cls_name}.isclose: `{ast.unparse(st)[:80]}`")
+        return "obj" if c.func.id == "_obj_isclose" else "arr"
+    body = strip_doc(fn.body)
+    result, multi = None, False
+    for i, st in enumerate(body):
+        last = i == len(body) - 1
+        if isinstance(st, ast.If) and ast.unparse(st.test).startswith("xor(") and not st.orelse and len(st.body) == 1 \
+                and isinstance(st.body[0], ast.Expr) and ast.unparse(st.body[0].value).startswith("warnings.warn("):
+            continue
+        if isinstance(st, ast.Expr) and ast.unparse(st.value) == f"_helix_isclose_check_error(self.fields, {oth}.fields)":
+            warn_only(tree, "_helix_isclose_check_error"); continue
+        if isinstance(st, ast.Assign) and ast.unparse(st) == "multi_trk = isinstance(self.pivot.x, ak.Array)" and not multi:
+            multi = True; continue
+        if last and isinstance(st, ast.Return):
+            k = helper_of(st); result = (k, k); continue
+        if last and isinstance(st, ast.If) and multi and ast.unparse(st.test) == "multi_trk" and len(st.body) == 1 and len(st.orelse) == 1:
+            result = (helper_of(st.body[0]), helper_of(st.orelse[0])); continue
+        raise Unsupported(f"{cls_name}.isclose: `{ast.unparse(st)[:80]}`")
+    if result is None:
+        raise Unsupported(f"{cls_name}.isclose: no call of a helper")
+    return {"rtol": rt, "atol": at, "equal_nan": en.value, "helper_multi": result[0], "helper_single": result[1]}
+
+
+def check_move_wiring(tree):
+    """`x.change_pivot(q)` gives a helix whose pivot is q and whose error matrix is the propagated one exactly when x has one
+    (the parameters' wiring is checked by translate.helix.check_callers)"""
+    from translate.helix import check_callers
+    check_callers(ast.unparse(tree))
+    def need(cond, msg):
+        if not cond:
+            raise Unsupported("change_pivot wiring: " + msg)
+    cp = top_function(tree, "_change_pivot")
+    ifs = [st for st in cp.body if isinstance(st, ast.If) and ast.unparse(st.test) == "old_error is not None"]
+    need(len(ifs) == 1 and [ast.unparse(x) for x in ifs[0].orelse] == ["new_error = None"], "_change_pivot: `new_error = None` without an old error matrix")
+    need(isinstance(cp.body[-1], ast.Return) and ast.unparse(cp.body[-1].value) == "(new_dr, new_phi0, new_dz, new_error)", "_change_pivot: return value")
+    fs = [n for n in the_class(tree, "HelixObject").body if isinstance(n, ast.FunctionDef) and n.name == "change_pivot"]
+    need(len(fs) == 1, "HelixObject.change_pivot")
+    m = fs[0]
+    need(m.args.vararg is not None and m.args.vararg.arg == "args" and [x.arg for x in m.args.args] == ["self"], "HelixObject.change_pivot(self, *args)")
+    asg = [ast.unparse(x) for x in ast.walk(m) if isinstance(x, ast.Assign)]
+    need("new_pivot = _regularize_obj_position(args)" in asg and sum(a.startswith("new_pivot =") for a in asg) == 1, "HelixObject.change_pivot: new_pivot")
+    rets = [x for x in ast.walk(m) if isinstance(x, ast.Return)]
+    need(len(rets) == 1 and isinstance(rets[0].value, ast.Call) and ast.unparse(rets[0].value.func) == "HelixObject", "HelixObject.change_pivot: return")
+    kw = {k.arg: ast.unparse(k.value) for k in rets[0].value.keywords}
+    need(kw.get("pivot") == "new_pivot" and kw.get("error") == "new_error", "HelixObject.change_pivot: pivot= / error= of the new helix")
+    calls = [c for c in ast.walk(m) if isinstance(c, ast.Call) and ast.unparse(c.func) == "_change_pivot"]
+    need(len(calls) == 1 and {k.arg: ast.unparse(k.value) for k in calls[0].keywords}.get("old_error") == "self.error", "HelixObject.change_pivot: old_error=self.error")
+    aw = top_function(tree, "_awk_change_pivot")
+    need([x.arg for x in aw.args.args] == ["helix_self", "args"], "_awk_change_pivot(helix_self, args, ...)")
+    dicts = [st.value for st in aw.body if isinstance(st, ast.Assign) and ast.unparse(st.targets[0]) == "res_dict" and isinstance(st.value, ast.Dict)]
+    need(len(dicts) == 1, "_awk_change_pivot: res_dict")
+    d = {k.value: v for k, v in zip(dicts[0].keys, dicts[0].values) if isinstance(k, ast.Constant)}
+    pv = d.get("pivot")
+    want = "{'x': new_pivot.x, 'y': new_pivot.y, 'z': new_pivot.z}"
+    def arm(x):
+        return isinstance(x, ast.Call) and ast.unparse(x.func) in ("ak.zip", "ak.Record") and len(x.args) == 1 and ast.unparse(x.args[0]) == want \
+            and [(k.arg, ast.unparse(k.value)) for k in x.keywords] == [("with_name", "'Vector3D'")]
+    need(isinstance(pv, ast.IfExp) and arm(pv.body) and arm(pv.orelse) or arm(pv), "_awk_change_pivot: res_dict['pivot'] is not the new pivot")
+    np_asg = sorted(ast.unparse(x.value) for x in ast.walk(aw) if isinstance(x, ast.Assign) and ast.unparse(x.targets[0]) == "new_pivot")
+    need(len(np_asg) == 2 and np_asg[0] == "_regularize_obj_position(args)" and np_asg[1].startswith("vector.arr({'x': _flat_to_numpy(ak_new_pivot.x)"), "_awk_change_pivot: new_pivot")
+    need("ak_new_pivot = _awk_regularize_pivot(helix_self.dr, args)" in [ast.unparse(x) for x in ast.walk(aw) if isinstance(x, ast.Assign)], "_awk_change_pivot: ak_new_pivot")
+    errs = [st for st in aw.body if isinstance(st, ast.If) and ast.unparse(st.test) == "new_error is not None"]
+    need(len(errs) == 1 and [ast.unparse(x) for x in errs[0].body] == ["res_dict['error'] = new_error"] and not errs[0].orelse, "_awk_change_pivot: error of the new helix")
+    olds = [st for st in aw.body if isinstance(st, ast.If) and ast.unparse(st.test) == "'error' in helix_self.fields"]
+    need(len(olds) == 1 and [ast.unparse(x) for x in olds[0].orelse] == ["old_error = None"] and len(olds[0].body) == 1
+         and ast.unparse(olds[0].body[0]).startswith("old_error = _flat_to_numpy(helix_self.error).reshape("), "_awk_change_pivot: old_error")
+    for cn, ctor in (("HelixAwkwardRecord", "ak.Record"), ("HelixAwkwardArray", "ak.Array")):
+        ms = [n for n in the_class(tree, cn).body if isinstance(n, ast.FunctionDef) and n.name == "change_pivot"]
+        need(len(ms) == 1, f"{cn}.change_pivot")
+        src = [ast.unparse(x) for x in ast.walk(ms[0]) if isinstance(x, ast.Assign)]
+        need(any(x.startswith("res_dict, raw_shape = _awk_change_pivot(self, args, is_multi_trk=") for x in src), f"{cn}.change_pivot: call of _awk_change_pivot")
+        need(f"res = {ctor}(res_dict, with_name='Bes3Helix')" in src, f"{cn}.change_pivot: construction of the result")
+    return True
+
+
+ISCLOSE_STATIC = """/-- numpy's / awkward's `isclose(a, b, rtol, atol)` on finite values: `|a - b| <= atol + rtol * |b|`, written with the strict
+comparison of `Ops` (NaN / infinities and hence `equal_nan` have no counterpart over `Ops`: the theorems are about finite values) -/
+def iscloseScalar (R : Ops α) (rtol atol a b : α) : Bool :=
+  !(R.lt (R.add atol (R.mul rtol (R.abs b))) (R.abs (R.sub a b)))
+
+/-- `np.abs(v)` of a 3-D `vector` object / `Vector3D` awkward record is `v.mag`
+(`VectorObject.__array_ufunc__`: `numpy.absolute` of a `Vector3D` returns `.mag`; `behavior[numpy.absolute, "Vector3D"] = lambda v: v.mag`;
+`vector._compute.spatial.mag.xy_z = sqrt(x**2 + y**2 + z**2)`) -/
+def vecMag3 (R : Ops α) (x y z : α) : α := R.sqrt (R.add (R.add (R.mul x x) (R.mul y y)) (R.mul z z))
+
+/-- conjunction over the 5 x 5 entries (`np.allclose` of two 5x5 matrices; `ak.all(ak.all(.., axis=-1), axis=-1)` per track) -/
+def all25 (f : Nat → Nat → Bool) : Bool := (List.range 5).all fun i => (List.range 5).all fun j => f i j
+
+def allclose25 (R : Ops α) (rtol atol : α) (a b : Nat → Nat → α) : Bool := all25 fun i j => iscloseScalar R rtol atol (a i j) (b i j)
+
+/-- `if <both helices carry an error matrix>: condition = f(self.error, other.error)` -/
+def ifBothErrors (a b : Option (Nat → Nat → α)) (f : (Nat → Nat → α) → (Nat → Nat → α) → Bool) (otherwise : Bool) : Bool :=
+  match a, b with
+  | some x, some y => f x y
+  | _, _ => otherwise
+
+/-- defaults of the keyword-only parameters of a public `isclose` method, as exact decimals `mantissa * 10 ^ exponent` -/
+structure IscloseDefaults where
+  rtolMant : Nat
+  rtolExp : Int
+  atolMant : Nat
+  atolExp : Int
+  equalNan : Bool
+  deriving DecidableEq, Repr
+
+/-- the helper a public `isclose` method delegates to (always called as `helper(self, other, rtol=rtol, atol=atol, equal_nan=equal_nan)`) -/
+inductive IscloseHelper where
+  | obj
+  | arr
+  deriving DecidableEq, Repr
+
+"""
+
+ISCLOSE_DISPATCH = """
+/-- the verdict of a public `isclose` method for one track, through the helper it delegates to -/
+def iscloseVia (R : Ops α) (k : IscloseHelper) (rtol atol : α) (h : Params α) (p : Vec3 α) (E : Option (Nat → Nat → α))
+    (h' : Params α) (p' : Vec3 α) (E' : Option (Nat → Nat → α)) : Bool :=
+  match k with
+  | .obj => objIsclosePyFull R rtol atol h p E h' p' E'
+  | .arr => arrIsclosePyFull R rtol atol h p E h' p' E'
+"""
+
+
+def translate_isclose(tree):
+    check_move_wiring(tree)
+    parts, info = [ISCLOSE_STATIC], {}
+    for name, lean, mover in (("_obj_isclose", "objIsclosePy", "changePivotWiredObj"), ("_arr_isclose", "arrIsclosePy", "changePivotWiredArr")):
+        text, i = translate_isclose_helper(tree, name, lean, mover)
+        parts.append(text); info[name] = i
+    via_field = all(v in ("helper", "fields") for v in info["_obj_isclose"]["error_presence_via"])
+    info["objErrorPresenceViaField"] = via_field
+    parts.append("/-- `_obj_isclose` (which also serves single-track *records*) decides \"this helix carries an error matrix\" through\n"
+                 "`_error_or_none` / a test of the record's fields - a record without an `error` field simply has none - and not through the\n"
+                 "attribute `x.error`, which raises AttributeError for such a record (`false` = the attribute form) -/\n"
+                 f"def objErrorPresenceViaField : Bool := {str(via_field).lower()}\n")
+    parts.append(ISCLOSE_DISPATCH)
+    for cn, pre in (("HelixObject", "obj"), ("HelixAwkwardRecord", "rec"), ("HelixAwkwardArray", "arr")):
+        m = check_isclose_method(tree, cn)
+        info[cn + ".isclose"] = m
+        parts.append(f"/-- `{cn}.isclose(self, other, *, rtol={m['rtol'][0]}e{m['rtol'][1]}, atol={m['atol'][0]}e{m['atol'][1]}, equal_nan={m['equal_nan']})` -/\n"
+                     f"def {pre}IscloseDefaults : IscloseDefaults := ⟨{m['rtol'][0]}, {m['rtol'][1]}, {m['atol'][0]}, {m['atol'][1]}, {str(m['equal_nan']).lower()}⟩\n")
+        hm, hs = m["helper_multi"], m["helper_single"]
+        body = f".{hm}" if hm == hs else f"if multi_trk then .{hm} else .{hs}"
+        arg = "_multi_trk" if hm == hs else "multi_trk"
+        parts.append(f"/-- the helper `{cn}.isclose` calls (`multi_trk = isinstance(self.pivot.x, ak.Array)`) -/\n"
+                     f"def {pre}IscloseHelper ({arg} : Bool) : IscloseHelper := {body}\n")
+    return "\n".join(parts), info
+
+
 # ------------------------------------------------------------------------------------------------ driver
 LEAN_HEADER = """-- GENERATED by tools/translate/helixprops.py from /repo/src/pybes3/tracks/helix.py. Do not edit.
 import Pybes3Verif.Model.NumpySem
+import Pybes3Verif.Gen.HelixPy
 /-! The `@nb.vectorize` kernels, the `momentum / position / charge / radius` properties of `HelixObject` and of
 `HelixAwkwardRecord` (= `HelixAwkwardArray`, checked by the translator), `_compute_momentum`, `_compute_position` and the
-"given momentum, position and charge" branch of `helix_obj` / `helix_awk`, translated statement by statement. -/
+"given momentum, position and charge" branch of `helix_obj` / `helix_awk`, translated statement by statement; the closeness
+test (`_obj_isclose`, `_arr_isclose`, the three public `isclose` methods: helper called, defaults), per track, the other helix
+moved with the translated `changePivotWiredObj / changePivotWiredArr` of `Gen/HelixPy.lean`. -/
 namespace Pybes3Verif.Helix.Py
 open Pybes3Verif.Helix
 
@@ -780,15 +1271,21 @@ def generate(src: str) -> tuple[str, dict]:
     text, n, arms = translate_helix_awk(tree, calls)
     parts.append(text); info["constructors"]["helix_awk"] = {"lean": "awkFromPhysics", "statements": n, "chain_arms_before_else": arms,
                                                               "res_dict": {k: k for k in PARAM_FIELDS}}
+    text, info["isclose"] = translate_isclose(tree)
+    parts.append(text)
     return LEAN_HEADER + "\n".join(parts) + "\nend Pybes3Verif.Helix.Py\n", info
 
 
 def main(argv):
     import json
-    src_path = argv[1] if len(argv) > 1 else "/repo/src/pybes3/tracks/helix.py"
     out_path = argv[2] if len(argv) > 2 else "/verif/lean/Pybes3Verif/Gen/HelixProps.lean"
-    with open(src_path) as f:
-        text, info = generate(f.read())
+    if len(argv) > 1:
+        with open(argv[1]) as f:
+            src = f.read()
+    else:                                       # the committed source (the working tree may carry a seeded defect)
+        import subprocess
+        src = subprocess.run(["git", "-C", "/repo", "show", "HEAD:src/pybes3/tracks/helix.py"], check=True, capture_output=True, text=True).stdout
+    text, info = generate(src)
     with open(out_path, "w") as f:
         f.write(text)
     print(json.dumps(info, indent=1))
